@@ -134,7 +134,12 @@ func attrSummary(attrs []bgp.PathAttributeInterface) string {
 		case *bgp.PathAttributeExtendedCommunities:
 			var cs []string
 			for _, c := range v.Value {
-				cs = append(cs, strings.ReplaceAll(c.String(), " ", "_"))
+				s := strings.ReplaceAll(c.String(), " ", "_")
+				// String() of an AS- or address-specific community shows its value only: tell route targets from the rest
+				if _, st := c.GetTypes(); st != bgp.EC_SUBTYPE_ROUTE_TARGET {
+					s = fmt.Sprintf("st%d~%s", st, s)
+				}
+				cs = append(cs, s)
 			}
 			sort.Strings(cs)
 			parts = append(parts, "ec["+strings.Join(cs, ",")+"]")
@@ -271,6 +276,46 @@ type world struct {
 	watch    map[string]string // prefix -> "source attrs": the best-path stream replayed (with the global option "watch")
 	station  *bmpStation
 	handles  map[string]any // peer name -> the server's peer object remembered by a (handle ...) step
+	assigned map[string][]string // direction -> names of the policies assigned last
+}
+
+// polext: (polext import|export <default> ((STATEMENT))) -- the LAST policy assigned to that direction is extended by one
+// statement through AddPolicy (as "gobgp policy add <policy> <statement>" does); defined sets it needs are added first.
+// The assignment is left as it is.
+func (w *world) polext(n sx.Node) {
+	names := w.assigned[n.At(1).Atom]
+	if len(names) == 0 {
+		w.out = append(w.out, "(polext-error nothing-assigned)")
+		return
+	}
+	w.polGen++
+	ds, pds, _ := polcfg.Build(n.At(3), fmt.Sprintf("x%d", w.polGen))
+	if len(pds) != 1 || len(pds[0].Statements) != 1 {
+		w.out = append(w.out, "(polext-error shape)")
+		return
+	}
+	w.polSets.PrefixSets = append(w.polSets.PrefixSets, ds.PrefixSets...)
+	w.polSets.NeighborSets = append(w.polSets.NeighborSets, ds.NeighborSets...)
+	w.polSets.BgpDefinedSets.CommunitySets = append(w.polSets.BgpDefinedSets.CommunitySets, ds.BgpDefinedSets.CommunitySets...)
+	for i := range w.polDefs {
+		if w.polDefs[i].Name == names[len(names)-1] {
+			w.polDefs[i].Statements = append(w.polDefs[i].Statements, pds[0].Statements[0])
+		}
+	}
+	rp, err := table.NewAPIRoutingPolicyFromConfigStruct(&oc.RoutingPolicy{DefinedSets: ds, PolicyDefinitions: pds})
+	if err != nil {
+		w.out = append(w.out, "(polext-error convert)")
+		return
+	}
+	for _, d := range rp.DefinedSets {
+		if err := w.s.AddDefinedSet(context.Background(), &api.AddDefinedSetRequest{DefinedSet: d}); err != nil {
+			w.out = append(w.out, "(polext-error set "+strings.ReplaceAll(err.Error(), " ", "_")+")")
+			return
+		}
+	}
+	if err := w.s.AddPolicy(context.Background(), &api.AddPolicyRequest{Policy: &api.Policy{Name: names[len(names)-1], Statements: rp.Policies[0].Statements}}); err != nil {
+		w.out = append(w.out, "(polext-error add "+strings.ReplaceAll(err.Error(), " ", "_")+")")
+	}
 }
 
 // bmpStation is a BMP monitoring station on a loopback TCP socket. Its goroutines run OUTSIDE the synctest bubble
@@ -764,6 +809,13 @@ func routeAttrs(r sx.Node, nhop string) []bgp.PathAttributeInterface {
 		}
 		attrs = append(attrs, bgp.NewPathAttributeCommunities(cs))
 	}
+	// optional 11th field agg=<AS>: an AGGREGATOR attribute
+	if r.Len() > 10 && strings.HasPrefix(r.At(10).Atom, "agg=") {
+		var as uint32
+		fmt.Sscan(r.At(10).Atom[4:], &as)
+		ag, _ := bgp.NewPathAttributeAggregator(as, v4("10.9.9.9"))
+		attrs = append(attrs, ag)
+	}
 	// optional: ORIGINATOR_ID (atom or -) and CLUSTER_LIST
 	if r.Len() > 8 && r.At(8).Atom != "-" && r.At(8).Atom != "" {
 		o, _ := bgp.NewPathAttributeOriginatorId(v4(r.At(8).Atom))
@@ -796,23 +848,13 @@ func (w *world) upd(n sx.Node) {
 			m = bgp.NewBGPUpdateMessage([]bgp.PathNLRI{pathNLRI(r.At(1).Atom, r.At(2).Uint())}, nil, nil)
 		} else {
 			attrs := routeAttrs(r, p.addr.String())
-			if p.old {
-				// the 2-octet encoding of the AS_PATH such a session uses (the scenarios keep its AS numbers below 65536)
-				for i, a := range attrs {
-					if ap, ok := a.(*bgp.PathAttributeAsPath); ok {
-						var ps []bgp.AsPathParamInterface
-						for _, seg := range ap.Value {
-							var as []uint16
-							for _, x := range seg.GetAS() {
-								as = append(as, uint16(x))
-							}
-							ps = append(ps, bgp.NewAsPathParam(seg.GetType(), as))
-						}
-						attrs[i] = bgp.NewPathAttributeAsPath(ps)
-					}
-				}
-			}
 			m = bgp.NewBGPUpdateMessage(nil, attrs, []bgp.PathNLRI{pathNLRI(r.At(1).Atom, r.At(2).Uint())})
+			if p.old {
+				// what a speaker without the 4-octet AS capability puts on the wire: 2-octet AS_PATH / AGGREGATOR with AS_TRANS,
+				// AS4_PATH / AS4_AGGREGATOR beside them
+				table.UpdatePathAttrs2ByteAs(m.Body.(*bgp.BGPUpdate))
+				table.UpdatePathAggregator2ByteAs(m.Body.(*bgp.BGPUpdate))
+			}
 		}
 		p.send(m, p.sendOpt)
 	}
@@ -1043,6 +1085,10 @@ func (w *world) policy(n sx.Node) {
 	for _, nm := range names {
 		ps = append(ps, &api.Policy{Name: nm})
 	}
+	if w.assigned == nil {
+		w.assigned = map[string][]string{}
+	}
+	w.assigned[n.At(1).Atom] = names
 	if err := w.s.SetPolicyAssignment(context.Background(), &api.SetPolicyAssignmentRequest{Assignment: &api.PolicyAssignment{Name: "global", Direction: dir, Policies: ps, DefaultAction: def}}); err != nil {
 		w.out = append(w.out, "(policy-error assign "+strings.ReplaceAll(err.Error(), " ", "_")+")")
 	}
@@ -1329,7 +1375,13 @@ func (w *world) step(n sx.Node) {
 		// (vrfadd name prefix): a route originated in the VRF
 		nl, _ := bgp.NewIPAddrPrefix(netip.MustParsePrefix(n.At(2).Atom))
 		nh, _ := bgp.NewPathAttributeNextHop(v4("0.0.0.0"))
-		ps := []*apiutil.Path{{Family: bgp.RF_IPv4_UC, Nlri: nl, Attrs: []bgp.PathAttributeInterface{bgp.NewPathAttributeOrigin(0), nh}}}
+		vattrs := []bgp.PathAttributeInterface{bgp.NewPathAttributeOrigin(0), nh}
+		if ok, v := hasOpt(n, 3, "soo"); ok { // soo=<as>:<n>: a Site-of-Origin extended community on the route
+			var as, ln uint32
+			fmt.Sscanf(v, "%d:%d", &as, &ln)
+			vattrs = append(vattrs, bgp.NewPathAttributeExtendedCommunities([]bgp.ExtendedCommunityInterface{bgp.NewTwoOctetAsSpecificExtended(bgp.EC_SUBTYPE_ROUTE_ORIGIN, uint16(as), ln, true)}))
+		}
+		ps := []*apiutil.Path{{Family: bgp.RF_IPv4_UC, Nlri: nl, Attrs: vattrs}}
 		var err error
 		if n.At(0).Atom == "vrfadd" {
 			_, err = w.s.AddPath(apiutil.AddPathRequest{VRFID: n.At(1).Atom, Paths: ps})
@@ -1414,6 +1466,8 @@ func (w *world) step(n sx.Node) {
 			}
 			p.send(bgp.NewEndOfRib(f), p.sendOpt)
 		}
+	case "polext":
+		w.polext(n)
 	case "policy":
 		w.policy(n)
 	case "softin", "softout", "softboth":
